@@ -93,6 +93,13 @@ CLAIMS["C09"] = dict(text="bounded symbolic model checking through the real Loca
                     "the state equalities then fold by hash-consing or go to the solver); circuit lists, operation objects, parameter objects, dagger "
                     "flags and registers are identity-unchanged after run and after compile for 5 targets; an apply aborted by an injected backend fault "
                     "leaves the operation untouched", design_ref="5/C09")
+CLAIMS["C10"] = dict(text="bounded symbolic model checking: (1) for every expression template ops.py builds with sympy functions (sums, products, "
+                    "quotients, powers, sin, cos, exp, sqrt, Abs, sign, asinh, acosh, atan, atan2, cosh, tanh; free and measured atoms; object arrays) "
+                    "the value returned by the real par_evaluate (sympy lambdify, numpy printer, called on symbolic reals) equals an independent "
+                    "recursive interpretation of the sympy tree, for all real values (principal branches included); (2) program templates with "
+                    "FreeParameters compiled and optimised BEFORE binding act, after binding, exactly like the template built on the values, from an "
+                    "arbitrary state; (3) a measure / use / re-prepare / re-measure / use script reads the latest outcome of the right mode; use before "
+                    "measurement, unbound and unknown parameters raise ParameterError; par_regref_deps is exact", design_ref="5/C10")
 NA_DEFAULT = "check not built yet in this session (plan: DESIGN.md section 5)"
 NA = {}
 
